@@ -2,6 +2,8 @@ package main
 
 import (
 	"fmt"
+	"os"
+	"strconv"
 	"strings"
 )
 
@@ -22,6 +24,9 @@ type grounder struct {
 	budget  int
 	changed bool
 	depth   int
+	gen     map[*Term]int // generation of each indexed ground term (0 = occurs in the original VC)
+	curGen  int           // generation given to terms indexed now
+	maxGen  int           // only terms up to this generation are used as match candidates
 }
 
 func headKey(t *Term) string {
@@ -58,6 +63,7 @@ func (g *grounder) addGround(t *Term) {
 			continue
 		}
 		g.seen[s] = true
+		g.gen[s] = g.curGen
 		if isPatternHead(s) {
 			k := headKey(s)
 			g.index[k] = append(g.index[k], s)
@@ -336,11 +342,18 @@ func (g *grounder) instances(f *Term) []*Term {
 				g.done[key] = true
 				g.budget--
 				inst := body
+				mg := 0
 				for _, v := range vars {
 					inst = substitute(inst, v, b[v], map[*Term]*Term{})
+					if g.gen[b[v]] > mg {
+						mg = g.gen[b[v]]
+					}
 				}
+				save := g.curGen
+				g.curGen = mg + 1
 				g.addGround(inst)
 				out = append(out, g.instances(inst)...)
+				g.curGen = save
 			}
 		}
 		return out
@@ -359,6 +372,9 @@ func (g *grounder) matchAll(pat []*Term, vars map[*Term]bool, nvars int) []map[*
 				nb := map[*Term]*Term{}
 				for k, v := range b {
 					nb[k] = v
+				}
+				if g.gen[t] > g.maxGen {
+					continue
 				}
 				if match(p, t, vars, nb) {
 					next = append(next, nb)
@@ -382,7 +398,7 @@ func (g *grounder) matchAll(pat []*Term, vars map[*Term]bool, nvars int) []map[*
 // groundObligation builds the quantifier-free variant of an obligation, or nil when the goal itself keeps a quantifier
 // that cannot be moved to the assumptions.
 func groundObligation(o *Obligation, rounds int) *Obligation {
-	g := &grounder{index: map[string][]*Term{}, seen: map[*Term]bool{}, done: map[string]bool{}, qmemo: map[*Term]bool{}, budget: 6000}
+	g := &grounder{index: map[string][]*Term{}, seen: map[*Term]bool{}, done: map[string]bool{}, qmemo: map[*Term]bool{}, budget: 6000, gen: map[*Term]int{}, maxGen: groundMaxGen()}
 	goal := skolemizeQuant(o.Goal, true)
 	var assumes []*Term
 	assumes = append(assumes, o.Assumes...)
@@ -427,7 +443,6 @@ func groundObligation(o *Obligation, rounds int) *Obligation {
 			for _, inst := range g.instances(q) {
 				if !g.hasQ(inst) {
 					ground = append(ground, inst)
-					g.addGround(inst)
 				}
 			}
 		}
@@ -444,4 +459,13 @@ func groundObligation(o *Obligation, rounds int) *Obligation {
 		}
 	}
 	return &Obligation{Unit: o.Unit, Kind: o.Kind, Label: o.Label, Site: o.Site, Assumes: uniq, Goal: goal, Src: o.Src, prog: o.prog, Inputs: o.Inputs}
+}
+
+func groundMaxGen() int {
+	if v := os.Getenv("GOVC_MAXGEN"); v != "" {
+		if n, err := strconv.Atoi(v); err == nil {
+			return n
+		}
+	}
+	return 1
 }
